@@ -30,6 +30,11 @@ CLAUSES = {
             "Info.MiddleIsWhatWasAligned.PairedRevcompRowsFromR1")},
     "C04": {"Occurrences": "EachReadExactlyOneFate", "Fate": "EachReadExactlyOneFate"},
 }
+CLAUSES["C20"] = {}
+for _side in ("Stats1.", "Stats2."):
+    for _c in ("MatchesEqualTally", "HistogramByLengthAndErrors", "AdjacentBases", "OnReverseComplementCount",
+               "AllowedErrorsAreFloorOfLTimesRate"):
+        CLAUSES["C20"][_side + _c] = _c + ("(R2)" if _side == "Stats2." else "")
 for _c in ("InputCount", "Conservation", "WrittenCount", "WrittenMatchesFiles", "WrittenBasePairs", "InputBasePairs",
            "WithAdapters", "QualityTrimmed", "PolyATrimmed", "ReverseComplemented", "TextFateEqualsJson", "MinimalEqualsJson"):
     CLAUSES["C04"]["Report." + _c] = "Report" + _c
@@ -66,11 +71,12 @@ def signature(pid, pclause, e, k):
     return f"{pid}:{pclause}:" + ",".join(feats)
 
 
-def run_family_check(ctx, pid, n_quick, n_thorough, want=("report",), config_hook=None, mc=None):
+def run_family_check(ctx, pid, n_quick, n_thorough, want=("report",), config_hook=None, mc=None, extra_configs=()):
     if mc:
         for spec, cfgq, cfgt in mc:
             ctx.mc(spec, cfgq if ctx.quick else cfgt, workers=8, timeout=3000)
-    events, viols, failed = RF.drive(ctx, pid, n_quick if ctx.quick else n_thorough, want, config_hook=config_hook)
+    events, viols, failed = RF.drive(ctx, pid, n_quick if ctx.quick else n_thorough, want, config_hook=config_hook,
+                                    extra_configs=extra_configs)
     seen = set()
     for e, clause, k in viols:
         pc = prop_clause(pid, clause)
